@@ -1,5 +1,6 @@
 //! vharness — drives the real mls-rs crates for the correspondence checks of /verif.
 //! One sub-command per property; all randomness from one SplitMix64 seeded by --seed.
+mod anyprov;
 mod c05;
 mod c06;
 mod c07;
@@ -7,6 +8,7 @@ mod c11;
 mod c12;
 mod c12types;
 mod c13;
+mod c14;
 mod c15;
 mod c16;
 mod c17;
@@ -99,6 +101,7 @@ fn main() {
             0
         }
         "c13" => c13::run(&opts),
+        "c14" => c14::run(&opts),
         "c15" => c15::run(&opts),
         "c16" => c16::run(&opts),
         "c17" => c17::run(&opts),
